@@ -78,7 +78,8 @@ where
     // for now, write this as a type alias; we may want to change this to a newtype
     // in the future
     if let Some(comment) = comment {
-        for line in comment.split('\n') {
+        // a carriage return is not allowed inside a doc comment: treat it as a line break as well
+        for line in comment.split(['\n', '\r']) {
             writeln!(writer, "/// {line}")?;
         }
     }
@@ -161,7 +162,8 @@ where
     let rust_name = xml_name_to_rust_name(xml_name);
 
     if let Some(comment) = comment {
-        for line in comment.split('\n') {
+        // a carriage return is not allowed inside a doc comment: treat it as a line break as well
+        for line in comment.split(['\n', '\r']) {
             writeln!(writer, "/// {line}")?;
         }
     }
